@@ -376,6 +376,33 @@ func CheckC15(c *Ctx) (*Outcome, error) {
 	if err != nil {
 		return nil, err
 	}
+	// systematic layout coverage: every form combination in every way of naming the cwd
+	covSpecs := CoverageSpecs()
+	fcov, err := c.RunCases(len(covSpecs), func(i int) ([]*History, error) {
+		rng := c.Rng("c15-coverage", i)
+		spec := covSpecs[i]
+		w := spec.World("c15cov")
+		var hs []*History
+		forms := []string{"", "abs", "rel", "abs-slash", "symlink", "sub:svc/conv"}
+		if c.Tier != "thorough" {
+			forms = []string{forms[i%len(forms)], forms[(i+3)%len(forms)]}
+		}
+		for _, cw := range forms {
+			g := &GenSpec{Plan: planIdentity(), Spec: spec, Expect: "ok", Cwd: cw, Umask: []int{0, 0o027, 0o077}[rng.IntN(3)]}
+			if strings.HasPrefix(cw, "sub:") {
+				sp := spec.Clone()
+				sp.CwdDir = strings.TrimPrefix(cw, "sub:")
+				g.Spec = sp
+			}
+			hs = append(hs, &History{World: w, Loc: rng.IntN(len(locNames)), Ops: []Op{genOp(g)}})
+		}
+		c.Stats.Add("worlds", 1)
+		return hs, nil
+	}, JudgeC15, onObs)
+	if err != nil {
+		return nil, err
+	}
+	found = append(found, fcov...)
 	hmk := func(i int) ([]*History, error) {
 		rng := c.Rng("c15-history", i)
 		spec := DrawLayout(rng, 1+rng.IntN(4), LayoutOpts{CustomTags: true, Guarded: true, UserPkgs: true})
